@@ -204,6 +204,8 @@ pub fn explorer_plan(prop: &str, thorough: bool) -> Option<Plan> {
         "C15" => {
             p.checks = Checks { options: true, build_must_succeed: true, accuracy: true, ..Default::default() };
             p.dims = vec![1, 1, 2, 3, 5, 8, 16, 33, 64, 130];
+            // also requested counts larger than the usual range (and larger than the number of items)
+            p.n_trees = vec![None, None, Some(1), Some(2), Some(3), Some(5), Some(9), Some(10), Some(17), Some(20), Some(21), Some(40), Some(64)];
             p.rounds = (2, 6);
             p.keep_opts = 0.4;
             // the capacity clause holds whatever the memory hint: batches of >200 items under a small hint
@@ -215,7 +217,7 @@ pub fn explorer_plan(prop: &str, thorough: bool) -> Option<Plan> {
             p.ops_per_round = (0, 70);
             Plan {
                 profile: p,
-                cases: (8000, 120000),
+                cases: (6000, 100000),
                 required: &["opt_empty", "opt_single_bucket", "opt_explicit_trees", "opt_auto_trees", "opt_capacity_checked", "opt_search_returns_a_result", "tr_trees_added", "tr_trees_removed"],
                 custom_gen: None,
                 rule: "case = explorer history whose build options are re-drawn between rounds (tree count grows and shrinks, capacity around the item count, dimension 1 included); after every build Reader-visible tree count, bucket sizes and searchability are compared with the request; non-trivial+distinct = distinct forest shapes with splits",
